@@ -5,7 +5,7 @@ from coregen import gen_leaf, gen_prog, gen_env, c_leaf_term, c_prog, c_oentry, 
 from common import cz, cbool, clist
 
 ID = 'C03'
-GEN_MODULES = ['Ident', 'Classes']
+GEN_MODULES = ['Ident', 'Classes', 'Flags']
 MODEL_TARGETS = ['coq/C03/Run.vo']
 PROOF_TARGETS = ['coq/C03/Proofs.vo']
 PROPS_FILE = 'coq/Props/C03.v'
